@@ -20,6 +20,13 @@ open AV Prog Pub Val AV.Props.C16
     | .delete _, _ => none
     | _, _ => some s
 
+/-- the monitor is not vacuous: it rejects a `Create` of a value that is neither an embedded object nor fetched, and
+any `Update` / `Delete`; it accepts the `Create` of a value the transport has just returned -/
+example : (createMon []).step [] (.create (.str "x")) (.ok ()) = none := rfl
+example : (createMon []).step [] (.update (.str "x")) (.ok ()) = none := rfl
+example : (createMon []).step [] (.delete "k") (.ok ()) = none := rfl
+example : (createMon []).step [.str "x"] (.create (.str "x")) (.ok ()) = some [.str "x"] := by simp [createMon, J.beq_self]
+
 abbrev Cr (embs : List J) (s : List J) (p : Prog α) : Prop := SafeP (createMon embs) s p (fun _ _ => True)
 
 /-- calls the monitor does not look at -/
